@@ -625,6 +625,66 @@ fn c20_every_accepted_policy_lies_on_the_threshold_domain() {
     std::mem::forget(base);
 }
 
+// ---- stage 6 and the confidence a Candidate carries ---------------------------------------------------
+// `eligible` reaches Policy::admits only through serde_json (stubbed away above), so admits is decided
+// directly; the confidence expression is sliced from the current source (slices/candidate_confidence.rs).
+// Added after seeded changes C20-7 (a stated confidence of exactly 0 treated as unstated) and C20-8 (an
+// empty mode list admits every mode).
+fn mode_from(k: u8) -> AssertionMode {
+    match k {
+        0 => AssertionMode::Observed,
+        1 => AssertionMode::Stated,
+        2 => AssertionMode::Inferred,
+        3 => AssertionMode::Predicted,
+        4 => AssertionMode::Hypothetical,
+        _ => AssertionMode::Imported,
+    }
+}
+// @check id=C20 tier=quick cap=300 role=policy_admits_only_listed_modes
+// @fns projection::policy::Policy::admits
+// @bound policy mode list of 0..2 modes (each any of the six, symbolic); the assertion's mode absent or any of the six
+#[kani::proof]
+#[kani::unwind(4)]
+fn c20_policy_admits_exactly_the_listed_modes() {
+    let (a, b, q): (u8, u8, u8) = (kani::any(), kani::any(), kani::any());
+    kani::assume(a < 6 && b < 6 && q < 6);
+    let n: u8 = kani::any();
+    kani::assume(n <= 2);
+    let mut policy = Policy::baseline();
+    policy.modes = match n {
+        0 => vec![],
+        1 => vec![mode_from(a)],
+        _ => vec![mode_from(a), mode_from(b)],
+    };
+    let has_mode: bool = kani::any();
+    let got = policy.admits(if has_mode { Some(mode_from(q)) } else { None });
+    let listed = (n >= 1 && q == a) || (n == 2 && q == b);
+    assert!(got == (has_mode && listed), "a mode is admitted iff the assertion records one and the policy lists it; an empty list admits nothing");
+    kani::cover!(got && n == 2 && q == b && q != a, "admitted as the second listed mode");
+    kani::cover!(!got && n == 0 && has_mode, "empty list admits nothing");
+    kani::cover!(!got && !has_mode && n == 2, "no recorded mode is never admitted");
+    std::mem::forget(policy);
+}
+
+include!("/verif/slices/candidate_confidence.rs");
+// @check id=C20 tier=quick cap=300 needs=slice_confidence role=candidate_confidence
+// @fns projection::Context::eligible (the Candidate's confidence expression, sliced)
+// @bound every f64 row confidence and every f64 unstated-confidence default
+// @assume the sliced expression is the one eligible() stores in Candidate.confidence (extracted textually, anchored on the field name inside fn eligible)
+#[kani::proof]
+fn c20_a_stated_confidence_is_used_as_stated() {
+    let (c, u): (f64, f64) = (kani::any(), kani::any());
+    let got = slice_candidate_confidence(c, u);
+    if c >= 0.0 && c <= 1.0 {
+        assert!(got.to_bits() == c.to_bits(), "a stated confidence in [0, 1] - zero included - is what the candidate carries");
+    }
+    if c < 0.0 {
+        assert!(got.to_bits() == u.to_bits(), "the negative sentinel (no stated confidence) takes the policy's default");
+    }
+    kani::cover!(c == 0.0 && u > 0.0, "stated zero");
+    kani::cover!(c < 0.0, "unstated");
+}
+
 // @check id=C20 tier=thorough cap=600 expect=fail role=witness
 // @fns projection::aggregate
 // @bound vacuity twin: must come back FAILED
